@@ -7,6 +7,7 @@
 //   DEC <mode> <hex>          Message::factory on the bytes; mode = s|p (strict/permissive) [n = no_chksum]
 //   REENC <mode> <hex>        factory, then encode the decoded object
 //   RT <mode> <msgspec>       build, encode, factory on the bytes, dump, encode the decoded object
+//   RENDER <fnum> <hex>       Field<T>(text).print() for the field's class -> OK <hex>
 //   CLONE|COPY|MOVE <msgspec> (C11) clone / copy_legal / move_legal into a fresh deep message; dump + encode
 // msgspec = <msgtype>;<hdr fields>;<body fields>;<trl fields>
 //   fields = [field{,field}]   field = <fnum>=<hex|->[ '[' {'(' fields ')'} ']' ]
@@ -270,6 +271,15 @@ void run_case(const std::string& line, std::ostream& os)
 				d = dump_msg(tgt.get());
 				h = enc(tgt.get()); }))
 			os << "OK " << d << " | " << h;
+	}
+	else if (op == "RENDER")	// RENDER <fnum> <hex text>: Field<T>(text).print() of the field's class
+	{
+		std::string out;
+		if (stage(os, [&] {
+				std::unique_ptr<BaseField> bf(mctx().create_field(static_cast<unsigned short>(std::stoul(a1)), unhex(a2).c_str()));
+				if (!bf) throw std::runtime_error("no such field");
+				out = tohex(codec_meta::printed(bf.get())); }))
+			os << "OK " << out;
 	}
 	else
 		os << "BAD-CASE unknown op";
